@@ -438,9 +438,23 @@ func runParallel(st *ekit.Stats, workers int, tasks []func()) {
 
 // retry3 evaluates a failing case three more times; the violation is reported only when
 // it fails every time (a case that passes on a rerun is counted as flaky).
+//
+// Once a signature has been confirmed by three reruns for three different cases, further
+// cases failing with the very same signature are recorded without reruns (ekit only bumps
+// the count of the already reported violation), which keeps a badly broken tree in budget.
 func retry3(st *ekit.Stats, first error, again func() error) error {
 	if first == nil {
 		return nil
+	}
+	fsig := ""
+	if ce, ok := first.(*caseErr); ok {
+		fsig = ce.sig
+		confirmedMu.Lock()
+		n := confirmed[fsig]
+		confirmedMu.Unlock()
+		if n >= 3 {
+			return first
+		}
 	}
 	err := first
 	for i := 0; i < 3; i++ {
@@ -450,8 +464,18 @@ func retry3(st *ekit.Stats, first error, again func() error) error {
 			return nil
 		}
 	}
+	if ce, ok := err.(*caseErr); ok && ce.sig == fsig {
+		confirmedMu.Lock()
+		confirmed[fsig]++
+		confirmedMu.Unlock()
+	}
 	return err
 }
+
+var (
+	confirmedMu sync.Mutex
+	confirmed   = map[string]int{}
+)
 
 // caseErr is a failed oracle: sig is the stable signature.
 type caseErr struct {
